@@ -77,7 +77,14 @@ fn render_node(n: &Node, st: &Style, depth: usize, root: bool, parent_ns: &str, 
         Node::Text(t) => out.push_str(&esc(t)),
         Node::Elem(e) => {
             let base = e.ns == BASE_NS;
-            let qname = if base && st.pfx { format!("nc:{}", e.name) } else { e.name.clone() };
+            let foreign = !base && !e.ns.is_empty();
+            let qname = if base && st.pfx {
+                format!("nc:{}", e.name)
+            } else if foreign && st.pfx {
+                format!("p:{}", e.name)
+            } else {
+                e.name.clone()
+            };
             let mut attrs: Vec<(String, String)> = Vec::new();
             if root {
                 if st.pfx {
@@ -85,8 +92,8 @@ fn render_node(n: &Node, st: &Style, depth: usize, root: bool, parent_ns: &str, 
                 } else {
                     attrs.push(("xmlns".into(), BASE_NS.into()));
                 }
-            } else if !base && e.ns != parent_ns && !e.ns.is_empty() {
-                attrs.push(("xmlns".into(), e.ns.clone()));
+            } else if foreign && e.ns != parent_ns {
+                attrs.push((if st.pfx { "xmlns:p" } else { "xmlns" }.into(), e.ns.clone()));
             } else if base && !st.pfx && parent_ns != BASE_NS {
                 attrs.push(("xmlns".into(), BASE_NS.into()));
             }
@@ -164,6 +171,47 @@ pub fn render(root: &Node, st: &Style) -> String {
     }
     s.push_str(EOM);
     s
+}
+
+/// Convert a parsed document into the tree model, resolving element namespaces (prefix
+/// declarations that only attributes use are kept as attributes).
+fn to_node(e: &PElem, scope: &[(String, String)], tokens: &[&str]) -> Node {
+    let mut scope: Vec<(String, String)> = scope.to_vec();
+    let mut attrs = Vec::new();
+    for (k, v) in &e.attrs {
+        if k == "xmlns" {
+            scope.push((String::new(), v.clone()));
+        } else if let Some(p) = k.strip_prefix("xmlns:") {
+            scope.push((p.to_string(), v.clone()));
+            attrs.push((k.clone(), v.clone()));
+        } else {
+            attrs.push((k.clone(), v.clone()));
+        }
+    }
+    let (pfx, local) = match e.name.split_once(':') {
+        Some((p, l)) => (p.to_string(), l.to_string()),
+        None => (String::new(), e.name.clone()),
+    };
+    let ns = scope.iter().rev().find(|(p, _)| *p == pfx).map(|(_, u)| u.clone()).unwrap_or_default();
+    let kids = e
+        .kids
+        .iter()
+        .map(|k| match k {
+            PNode::Elem(c) => to_node(c, &scope, tokens),
+            PNode::Text(t) => Node::Text(t.clone()),
+        })
+        .collect();
+    Node::Elem(Elem { ns, name: local.clone(), attrs, kids, token: tokens.contains(&local.as_str()) })
+}
+
+/// Re-serialise a well-formed message (without delimiter) in another, information-equivalent
+/// style; `tokens` names the elements whose text is a token (may be padded).
+pub fn restyle(xml: &str, st: &Style, tokens: &[&str]) -> Result<String, String> {
+    let root = parse_document(xml)?;
+    let node = to_node(&root, &[], tokens);
+    let mut s = render(&node, st);
+    s.truncate(s.len() - EOM.len());
+    Ok(s)
 }
 
 // ---------------------------------------------------------------------------------------------
